@@ -25,12 +25,13 @@ def DType.ofName? : String → Option DType
 inductive Kind | mrc | em
 deriving Repr, DecidableEq
 
-inductive Err | badExt | fileExists | badInput | badOutput | noFile | badAxes
+inductive Err | badExt | fileExists | badInput | badOutput | noFile | badAxes | badFormat
 deriving Repr, DecidableEq
 
 def Err.name : Err → String
   | .badExt => "bad-extension" | .fileExists => "exists" | .badInput => "bad-input-name"
   | .badOutput => "bad-output-name" | .noFile => "no-such-file" | .badAxes => "bad-axes"
+  | .badFormat => "bad-format"
 
 structure Arr (α : Type) where
   d0 : Nat
@@ -160,13 +161,34 @@ def write (cast : DType → α → α) (d : α) (a : Arr α) (src : DType) (name
   let k ← writeKind name
   pure (store k (outDType dataType src) a3)
 
-/-- `cryomap.read(name, transpose, data_type)` of a file holding `f` -/
+/-- `cryomap.read(name, transpose, data_type)` of a file holding `f`.  The reader is chosen by the
+NAME (`readKind`); `mrcfile.open` / `emfile.read` fail on a file of the other container format
+(`badFormat`: a volume written as `a.em` cannot be read through the name `a.mrc`). -/
 def read (cast : DType → α → α) (d : α) (name : Name) (f : MapFile α)
     (transpose : Bool) (dataType : Option DType) : Except Err (Arr α × DType) := do
-  let _ ← readKind name
+  let kr ← readKind name
+  if f.kind ≠ kr then .error .badFormat else
   let a0 := load f
   let a1 ← if transpose then permuteAxes d Gen.C11.readAxes a0 else pure a0
   pure (a1.map (conv1 cast dataType), dataType.getD f.dtype)
+
+/-! ### the signature defaults (read from the source): what a call WITHOUT keywords does -/
+
+/-- the `data_type=` default of a signature: `"None"` (or anything that is no dtype) ↦ `none` -/
+def defaultDType (s : String) : Option DType := DType.ofName? s
+
+/-- `cryomap.write(data, name[, transpose=..][, data_type=..])`: an omitted keyword takes the
+default of the signature in the current source -/
+def writeKw (cast : DType → α → α) (d : α) (a : Arr α) (src : DType) (name : Name)
+    (transpose : Option Bool) (dataType : Option DType) : Except Err (MapFile α) :=
+  write cast d a src name (transpose.getD Gen.C11.writeDefaultTranspose)
+    (match dataType with | some t => some t | none => defaultDType Gen.C11.writeDefaultDataType)
+
+/-- `cryomap.read(name[, transpose=..][, data_type=..])` -/
+def readKw (cast : DType → α → α) (d : α) (name : Name) (f : MapFile α)
+    (transpose : Option Bool) (dataType : Option DType) : Except Err (Arr α × DType) :=
+  read cast d name f (transpose.getD Gen.C11.readDefaultTranspose)
+    (match dataType with | some t => some t | none => defaultDType Gen.C11.readDefaultDataType)
 
 /-! ### file system and the converters -/
 
@@ -199,15 +221,20 @@ structure ConvCfg where
   cut : Nat
   append : String
   factor : Int
+  /-- signature defaults `invert=`, `overwrite=` -/
+  defInvert : Bool
+  defOverwrite : Bool
 deriving Repr, DecidableEq
 
 def em2mrcCfg : ConvCfg :=
   { inSuffix := Gen.C11.em2mrcIn, outSuffix := Gen.C11.em2mrcOut, cut := Gen.C11.em2mrcCut,
-    append := Gen.C11.em2mrcAppend, factor := Gen.C11.em2mrcFactor }
+    append := Gen.C11.em2mrcAppend, factor := Gen.C11.em2mrcFactor,
+    defInvert := Gen.C11.em2mrcDefaultInvert, defOverwrite := Gen.C11.em2mrcDefaultOverwrite }
 
 def mrc2emCfg : ConvCfg :=
   { inSuffix := Gen.C11.mrc2emIn, outSuffix := Gen.C11.mrc2emOut, cut := Gen.C11.mrc2emCut,
-    append := Gen.C11.mrc2emAppend, factor := Gen.C11.mrc2emFactor }
+    append := Gen.C11.mrc2emAppend, factor := Gen.C11.mrc2emFactor,
+    defInvert := Gen.C11.mrc2emDefaultInvert, defOverwrite := Gen.C11.mrc2emDefaultOverwrite }
 
 /-- output name of a converter: the given one (must carry the output extension) or the input
 name with its last `cut` characters replaced by `append` -/
@@ -216,16 +243,22 @@ def outName (c : ConvCfg) (mapName : Name) (outputName : Option Name) : Except E
   | none => .ok (dropLast mapName c.cut ++ c.append.toList)
   | some o => if endsWith o c.outSuffix then .ok o else .error .badOutput
 
-/-- `em2mrc` / `mrc2em` (`c` = `em2mrcCfg` / `mrc2emCfg`): check the input name, `read` it
-(default options), negate if `invert`, derive the output name, `write` (default options, the
-caller's `overwrite`). Order of the checks as in the source. -/
+/-- `em2mrc` / `mrc2em` (`c` = `em2mrcCfg` / `mrc2emCfg`): check the input name, `read(map_name)`
+(no keywords: the reader's signature defaults), negate if `invert`, derive the output name,
+`write(data, output_name, overwrite=overwrite)` (the writer's signature defaults, the caller's
+`overwrite`). Order of the checks as in the source. -/
 def convert (c : ConvCfg) (cast : DType → α → α) (d : α) (neg : α → α) (fs : FS α)
     (mapName : Name) (invert overwrite : Bool) (outputName : Option Name) : Except Err (FS α) := do
   if !endsWith mapName c.inSuffix then .error .badInput else
-  let (a, dt) ← readFS cast d fs mapName true none
+  let (a, dt) ← readFS cast d fs mapName Gen.C11.readDefaultTranspose (defaultDType Gen.C11.readDefaultDataType)
   let a' := if invert then applyFactor neg c.factor a else a
   let out ← outName c mapName outputName
-  writeFS cast d fs a' dt out true none overwrite
+  writeFS cast d fs a' dt out Gen.C11.writeDefaultTranspose (defaultDType Gen.C11.writeDefaultDataType) overwrite
+
+/-- a converter call with omitted keywords (`em2mrc(p)`): the signature defaults apply -/
+def convertKw (c : ConvCfg) (cast : DType → α → α) (d : α) (neg : α → α) (fs : FS α)
+    (mapName : Name) (invert overwrite : Option Bool) (outputName : Option Name) : Except Err (FS α) :=
+  convert c cast d neg fs mapName (invert.getD c.defInvert) (overwrite.getD c.defOverwrite) outputName
 
 /-! ### verified checkers (run by the driver on what the real code produced) -/
 
@@ -250,5 +283,17 @@ def checkSameFileVoxels [DecidableEq α] (conv : α → α) (f g : MapFile α) :
   decide (g.data.size = g.nx * g.ny * g.nz) && decide (f.data.size = g.data.size) &&
   (List.range g.nz).all fun k => (List.range g.ny).all fun j => (List.range g.nx).all fun i =>
     decide (g.data[offsetXFastest g.nx g.ny i j k]? = (f.data[offsetXFastest f.nx f.ny i j k]?).map conv)
+
+/-- what a converter does to one voxel of a file of type `dt`: negate if asked, then `write`'s
+conversion without `data_type` (float64 → float32, anything else unchanged) -/
+def convVoxel (cast : DType → α → α) (neg : α → α) (invert : Bool) (dt : DType) : α → α :=
+  fun v => convW cast none dt (if invert then neg v else v)
+
+/-- the file `fout` a converter wrote for the input `fin`: same `nx,ny,nz`, every voxel at its
+x-fastest place converted by `convVoxel`, voxel type by the dtype rule of `write` -/
+def checkConverted [DecidableEq α] (cast : DType → α → α) (neg : α → α) (invert : Bool)
+    (fin fout : MapFile α) : Bool :=
+  checkSameFileVoxels (convVoxel cast neg invert fin.dtype) fin fout &&
+  decide (fout.dtype = outDType none fin.dtype)
 
 end CryoCat.C11
